@@ -176,7 +176,7 @@ def check(rec, kind, idx, rng, tier):
         fin = ref[~np.isnan(ref)]
         if len(np.unique(fin)) >= 2:
             rec.nontriv(name, dtype, tuple(sorted(p.items())), b''.join(bands[nm].tobytes() for nm in bnames))
-        if idx == 0 and name in ('ndvi', 'evi'):
+        if len(rec.samples) < 1 and name in ('ndvi', 'evi'):
             rec.sample(dict(index=name, dtype=dtype, params=p, bands={k2: v2 for k2, v2 in bands.items()}, got=got))
         # 1. undefined cells are NaN (never inf, never a number)
         undefined = np.isnan(ref)
@@ -315,7 +315,7 @@ def _true_color(rec, idx, rng, ms, H, W, geom):
     r64 = bands['r'].astype('float64')
     exp_alpha = np.where(np.isnan(r64) | (r64 <= nodata), 0, 255)
     rec.nontriv('tc', dtype, bands['r'].tobytes(), bands['g'].tobytes(), repr(kw))
-    if idx == 0:
+    if len(rec.samples) < 2:
         rec.sample(dict(func='true_color', dtype=dtype, kwargs=kw, red=bands['r'], alpha=got[:, :, 3]))
     if not np.array_equal(got[:, :, 3], exp_alpha):
         i = tuple(int(v) for v in np.argwhere(got[:, :, 3] != exp_alpha)[0])
